@@ -873,7 +873,7 @@ fn dump<'tcx>(tcx: TyCtxt<'tcx>, rustc_args: &[String]) {
             }
             DefKind::Const { .. } | DefKind::AssocConst { .. } => {
                 let t = tcx.type_of(did).instantiate_identity().skip_norm_wip();
-                if t.is_integral() || t.is_bool() {
+                if t.is_integral() || t.is_bool() || t.is_floating_point() {
                     let generics = tcx.generics_of(did);
                     if generics.count() == 0 {
                         let r = std::panic::catch_unwind(std::panic::AssertUnwindSafe(|| {
